@@ -1628,3 +1628,324 @@ Proof.
   destruct (opener_in (tl u)); [exact I|].
   destruct Hunq as (t & l3 & A & B' & C & D). exists t, l3. auto.
 Qed.
+
+(* ================================================================ errors are never taken back *)
+Definition keeps (l l' : lexer) : Prop := errs l <> [] -> errs l' <> [].
+
+Lemma keeps_refl l : keeps l l. Proof. intro H; exact H. Qed.
+Lemma keeps_trans a b c : keeps a b -> keeps b c -> keeps a c.
+Proof. unfold keeps. auto. Qed.
+Lemma keeps_same l l' : errs l' = errs l -> keeps l l'.
+Proof. unfold keeps. intros ->. auto. Qed.
+
+Lemma ErrorfAt_errs l ln cl kind subj :
+  (errs (ErrorfAt l ln cl kind subj) = errs l \/ exists e, errs (ErrorfAt l ln cl kind subj) = e :: errs l) /\
+  (errcnt l = O -> errs (ErrorfAt l ln cl kind subj) <> []).
+Proof.
+  unfold ErrorfAt. change (errcnt (emit l TError)) with (errcnt l). change (errs (emit l TError)) with (errs l).
+  destruct (Nat.eqb_spec (errcnt l) maxErrors) as [E|N1]; [|destruct (Nat.eqb_spec (errcnt l) (S maxErrors)) as [E|N2]].
+  - split; [right; eexists; reflexivity|]. intro Z. rewrite Z in E. discriminate.
+  - split; [left; reflexivity|]. intro Z. rewrite Z in E. discriminate.
+  - split; [right; eexists; reflexivity|]. intros _. discriminate.
+Qed.
+
+Lemma ErrorfAt_keeps l0 l ln cl kind subj st : errs l = errs l0 -> keeps l0 (with_state (ErrorfAt l ln cl kind subj) st).
+Proof.
+  intros E H. cbn [with_state errs]. destruct (proj1 (ErrorfAt_errs l ln cl kind subj)) as [->|[e ->]]; [rewrite E; exact H|discriminate].
+Qed.
+
+Ltac split_all :=
+  repeat match goal with
+  | |- context [let (_, _) := ?x in _] => destruct x
+  | |- context [match ?x with (_, _) => _ end] => destruct x
+  | |- context [if ?b then _ else _] => destruct b
+  end.
+
+Lemma lexGround_keeps l : keeps l (lexGround l).
+Proof.
+  unfold lexGround. cbv zeta. split_all;
+    first [ apply keeps_same; reflexivity | apply ErrorfAt_keeps; reflexivity ].
+Qed.
+
+Lemma unquoted_loop_keeps fuel : forall l, keeps l (unquoted_loop fuel l).
+Proof.
+  induction fuel as [|f IH]; intro l; cbn [unquoted_loop]; [apply keeps_same; reflexivity|].
+  destruct (peek (cu l)) as [c k]. destruct (is_delim c); [apply keeps_same; reflexivity|].
+  destruct (next k) as [c2 k2]. eapply keeps_trans; [|apply IH]. apply keeps_same. reflexivity.
+Qed.
+
+Lemma qstring_loop_keeps fuel : forall l ind ql qc over tr, keeps l (qstring_loop fuel l ind ql qc over tr).
+Proof.
+  induction fuel as [|f IH]; intros l ind ql qc over tr; cbn [qstring_loop]; [apply keeps_same; reflexivity|].
+  destruct (next (cu l)) as [c k].
+  destruct (c =? EOFR)%N; [apply ErrorfAt_keeps; reflexivity|].
+  destruct (c =? cDQ)%N; [apply keeps_same; reflexivity|].
+  assert (K : forall l1, errs l1 = errs l -> forall o t, keeps l (qstring_loop f l1 ind ql qc o t)).
+  { intros l1 E o t. eapply keeps_trans; [apply keeps_same; exact E|apply IH]. }
+  destruct (c =? cLF)%N; [apply K; reflexivity|].
+  destruct ((c =? cSP) || (c =? cTAB))%N; [destruct (negb over && (tcol k <=? ind)); apply K; reflexivity|].
+  destruct (c =? cBSL)%N; [|apply K; reflexivity].
+  destruct (next k) as [c2 k2].
+  destruct (c2 =? c_n)%N; [apply K; reflexivity|]. destruct (c2 =? c_t)%N; [apply K; reflexivity|].
+  destruct (c2 =? cDQ)%N; [apply K; reflexivity|]. destruct (c2 =? cBSL)%N; [apply K; reflexivity|].
+  cbn [with_cu inPattern]. destruct (inPattern l); [apply K; reflexivity|].
+  eapply keeps_trans; [|apply IH].
+  apply (ErrorfAt_keeps l (with_cu (with_cu l k) k2) _ _ _ _ (state (ErrorfAt (with_cu (with_cu l k) k2) (line k) (col k - 1) EInvalidEscape (Some (Nat.pred (length (before k))))))).
+  reflexivity.
+Qed.
+
+Lemma run_state_keeps l : keeps l (run_state l).
+Proof.
+  unfold run_state. destruct (state l); [apply lexGround_keeps|apply qstring_loop_keeps|apply unquoted_loop_keeps|apply keeps_refl].
+Qed.
+
+Lemma NextToken_keeps fuel : forall l r l', NextToken fuel l = (r, l') -> keeps l l'.
+Proof.
+  induction fuel as [|f IH]; intros l r l' H; cbn [NextToken] in H.
+  - destruct (items l); [destruct (state l)|]; injection H as _ <-; apply keeps_same; reflexivity.
+  - destruct (items l); [|injection H as _ <-; apply keeps_same; reflexivity].
+    destruct (state l) eqn:Hs; try (eapply keeps_trans; [apply run_state_keeps|eapply IH; exact H]).
+    injection H as _ <-. apply keeps_refl.
+Qed.
+
+(* ================================================================ C02: what the reference reader rejects, the lexer reports *)
+Definition known_escape (c : rune) : bool := ((c =? c_n) || (c =? c_t) || (c =? cDQ) || (c =? cBSL))%N.
+
+(* the text after an opening double quote is never closed, or holds an undefined escape *)
+Fixpoint dq_bad (pat : bool) (s : str) : bool :=
+  match s with
+  | [] => true
+  | c :: r =>
+    if (c =? cDQ)%N then false
+    else if (c =? cBSL)%N then
+      match r with
+      | [] => true
+      | d :: r' => (negb pat && negb (known_escape d)) || dq_bad pat r'
+      end
+    else dq_bad pat r
+  end.
+
+Lemma dq_items_none_bad pat n : forall s, (length s <= n)%nat -> dq_items s = None -> dq_bad pat s = true.
+Proof.
+  induction n as [|n IH]; intros s Hn H; (destruct s as [|c r]; [reflexivity|]); [cbn in Hn; lia|].
+  cbn [dq_items] in H. cbn [dq_bad]. cbn [length] in Hn.
+  destruct (c =? cDQ)%N; [discriminate|]. destruct (c =? cBSL)%N.
+  - destruct r as [|d r']; [reflexivity|]. destruct (dq_items r') as [[its s']|] eqn:E; [discriminate|].
+    rewrite (IH r' ltac:(cbn [length] in Hn; lia) E). apply orb_true_r.
+  - destruct (dq_items r) as [[its s']|] eqn:E; [discriminate|]. apply IH; [lia|exact E].
+Qed.
+
+Lemma subst_item_none pat i : subst_item pat i = None -> exists c, i = Esc c /\ pat = false /\ known_escape c = false.
+Proof.
+  destruct i as [c|c]; [discriminate|]. cbn [subst_item].
+  destruct (c =? c_n)%N eqn:E1; [discriminate|]. destruct (c =? c_t)%N eqn:E2; [discriminate|].
+  destruct (c =? cDQ)%N eqn:E3; [discriminate|]. destruct (c =? cBSL)%N eqn:E4; [discriminate|]. destruct pat; [discriminate|].
+  intros _. exists c. unfold known_escape. rewrite E1, E2, E3, E4. repeat split.
+Qed.
+
+Lemma bad_item_dq_bad c rest : known_escape c = false -> forall its, Forall lit_ok its -> In (Esc c) its ->
+  dq_bad false (flat its ++ cDQ :: rest) = true.
+Proof.
+  intros Hc. induction its as [|i its IH]; intros F Hin; [contradiction|].
+  apply Forall_cons_iff in F. destruct F as [Hi F]. destruct i as [x|x].
+  - cbn [flat map concat raw_item app]. fold (flat its). cbn [dq_bad]. destruct Hi as [N1 N2].
+    apply N.eqb_neq in N1, N2. rewrite N1, N2. apply IH; [exact F|]. destruct Hin as [Q|Q]; [discriminate|exact Q].
+  - cbn [flat map concat raw_item app]. fold (flat its). cbn [dq_bad].
+    change (cBSL =? cDQ)%N with false. rewrite N.eqb_refl. cbv iota. cbn [negb andb].
+    destruct Hin as [Q|Q]; [injection Q as ->; rewrite Hc; reflexivity|]. rewrite (IH F Q). apply orb_true_r.
+Qed.
+
+Lemma subst_line_none pat l : subst_line pat l = None -> exists i, In i l /\ subst_item pat i = None.
+Proof.
+  induction l as [|i l IH]; [discriminate|]. cbn [subst_line]. destruct (subst_item pat i) eqn:E; [|exists i; split; [left; reflexivity|exact E]].
+  destruct (subst_line pat l); [discriminate|]. intros _. destruct (IH eq_refl) as (j & A & B). exists j. split; [right; exact A|exact B].
+Qed.
+Lemma join_lines_none pat ls : join_lines pat ls = None -> exists l i, In l ls /\ In i l /\ subst_item pat i = None.
+Proof.
+  induction ls as [|l ls IH]; [discriminate|]. destruct ls as [|m ms].
+  - cbn [join_lines]. intro H. destruct (subst_line_none _ _ H) as (i & A & B). exists l, i. split; [left; reflexivity|auto].
+  - rewrite join_lines_cons2. destruct (subst_line pat l) eqn:E.
+    + destruct (join_lines pat (m :: ms)); [discriminate|]. intros _. destruct (IH eq_refl) as (l' & i & A & B & C).
+      exists l', i. split; [right; exact A|auto].
+    + intros _. destruct (subst_line_none _ _ E) as (i & A & B). exists l, i. split; [left; reflexivity|auto].
+Qed.
+
+Lemma drop_leading_incl q : forall l col l2, drop_leading q col l = Some l2 -> incl l2 l.
+Proof.
+  induction l as [|i l IH]; intros col l2 H; [injection H as <-; apply incl_refl|].
+  destruct i as [c|c]; [|injection H as <-; apply incl_refl]. cbn [drop_leading] in H.
+  destruct (c =? cSP)%N.
+  - destruct (col <=? q); [apply incl_tl; eapply IH; exact H|injection H as <-; apply incl_refl].
+  - destruct (c =? cTAB)%N; [|injection H as <-; apply incl_refl].
+    destruct (col <=? q); [|injection H as <-; apply incl_refl].
+    destruct (tab_stop col <=? q + 1); [apply incl_tl; eapply IH; exact H|discriminate].
+Qed.
+Lemma strip_trailing_incl l : incl (strip_trailing l) l.
+Proof. destruct (strip_split l) as (T & E & _). rewrite E at 2. apply incl_appl. apply incl_refl. Qed.
+
+Lemma layout_incl q : forall ls first ls', layout q first ls = Some ls' ->
+  forall l' i, In l' ls' -> In i l' -> exists l, In l ls /\ In i l.
+Proof.
+  induction ls as [|l rest IH]; intros first ls' H l' i Hl Hi; cbn [layout] in H; [injection H as <-; contradiction|].
+  destruct (if first then _ else _) as [l2|] eqn:E2; [|discriminate].
+  destruct (layout q false rest) as [r|] eqn:Er; [|discriminate]. injection H as <-.
+  destruct Hl as [<-|Hl].
+  - exists l. split; [left; reflexivity|].
+    assert (I2 : incl l2 (match rest with [] => l | _ :: _ => strip_trailing l end)).
+    { destruct first; [injection E2 as <-; apply incl_refl|eapply drop_leading_incl; exact E2]. }
+    apply I2 in Hi. destruct rest; [exact Hi|apply strip_trailing_incl; exact Hi].
+  - destruct (IH false r Er l' i Hl Hi) as (l0 & A & B). exists l0. split; [right; exact A|exact B].
+Qed.
+
+Lemma lines_incl its : forall l i, In l (lines its) -> In i l -> In i its.
+Proof.
+  induction its as [|x its IH]; intros l i Hl Hi; [destruct Hl as [<-|[]]; contradiction|].
+  cbn [lines] in Hl. destruct (is_break x).
+  - destruct Hl as [<-|Hl]; [contradiction|]. right. eapply IH; eauto.
+  - destruct (lines its) as [|l0 ls] eqn:E.
+    + destruct Hl as [<-|[]]. destruct Hi as [<-|[]]. left; reflexivity.
+    + destruct Hl as [<-|Hl].
+      * destruct Hi as [<-|Hi]; [left; reflexivity|right; apply (IH l0 i); [left; reflexivity|exact Hi]].
+      * right. apply (IH l i); [right; exact Hl|exact Hi].
+Qed.
+
+Lemma dquoted_reject_bad pat q s : dquoted pat q s = DReject -> dq_bad pat s = true.
+Proof.
+  unfold dquoted. destruct (dq_items s) as [[its rest]|] eqn:E; [|intros _; apply (dq_items_none_bad pat (length s)); [lia|exact E]].
+  destruct (has_crlf _); [discriminate|]. destruct (pat && existsb esc_break its); [discriminate|].
+  destruct (negb _); [discriminate|].
+  destruct (layout q true (lines its)) as [ls|] eqn:E4; [|discriminate].
+  destruct (join_lines pat ls) as [t|] eqn:E5; [discriminate|]. intros _.
+  destruct (join_lines_none _ _ E5) as (l' & i & A & B & C).
+  destruct (layout_incl _ _ _ _ E4 _ _ A B) as (l0 & A0 & B0).
+  pose proof (lines_incl _ _ _ A0 B0) as Hin.
+  destruct (subst_item_none _ _ C) as (c & -> & -> & Hk).
+  destruct (dq_items_flat _ _ _ E) as [-> F]. apply (bad_item_dq_bad c rest Hk its F Hin).
+Qed.
+
+Lemma qstring_bad text : ~ In EOFR text -> forall n s fuel l ind ql qc over tr,
+  (length s <= n)%nat -> live text (cu l) -> after (cu l) = s -> (length s < fuel)%nat -> errcnt l = O ->
+  dq_bad (inPattern l) s = true -> errs (qstring_loop fuel l ind ql qc over tr) <> [].
+Proof.
+  intros NE. induction n as [|n IH]; intros s fuel l ind ql qc over tr Hn L Ha Hf Hc Hb.
+  all: destruct fuel as [|f]; [lia|].
+  all: assert (InA : forall x, In x (after (cu l)) -> x <> EOFR)
+         by (intros x Hx ->; apply NE; destruct L as [Z _]; unfold zip in Z; rewrite <- Z; apply in_or_app; right; exact Hx).
+  all: destruct s as [|c r]; [|try (cbn in Hn; lia)].
+  1,2: cbn [qstring_loop]; rewrite (next_eof _ Ha); change (EOFR =? EOFR)%N with true; cbv iota;
+       cbn [with_state errs]; apply ErrorfAt_errs; exact Hc.
+  cbn [length] in Hn, Hf.
+  destruct (next_step text (cu l) c r L Ha) as (Hn1 & L1 & A1 & _).
+  assert (E0 : (c =? EOFR)%N = false) by (apply N.eqb_neq; apply InA; rewrite Ha; left; reflexivity).
+  cbn [qstring_loop]. rewrite Hn1, E0. cbn [dq_bad] in Hb.
+  destruct (c =? cDQ)%N; [discriminate|].
+  set (l1 := with_cu l (advance c (cu l) 1)).
+  assert (Rec : forall o t, dq_bad (inPattern l) r = true -> errs (qstring_loop f l1 ind ql qc o t) <> []).
+  { intros o t Hb'. apply (IH r f l1 ind ql qc o t); auto; lia. }
+  destruct (c =? cBSL)%N eqn:E4.
+  - apply N.eqb_eq in E4. subst c.
+    change (cBSL =? cLF)%N with false. change ((cBSL =? cSP) || (cBSL =? cTAB))%N with false. cbv iota.
+    destruct r as [|d r'].
+    + (* backslash at the end of the text *)
+      rewrite (next_eof _ A1). unfold c_n, c_t, cDQ, cBSL, EOFR. cbn [N.eqb Pos.eqb].
+      change (inPattern (with_cu l1 (set_width (advance 92%N (cu l) 1) 0))) with (inPattern l).
+      destruct (inPattern l).
+      * destruct f as [|f]; [cbn in Hf; lia|]. cbn [qstring_loop]. cbn [with_cu cu].
+        rewrite (next_eof (set_width _ 0)) by exact A1. change (EOFR =? EOFR)%N with true. cbv iota.
+        cbn [with_state errs]. apply ErrorfAt_errs. exact Hc.
+      * apply qstring_loop_keeps. apply ErrorfAt_errs. exact Hc.
+    + destruct (next_step text _ d r' L1 A1) as (Hn2 & L2 & A2 & _). rewrite Hn2.
+      set (l2 := with_cu l1 (advance d (advance cBSL (cu l) 1) 1)).
+      assert (Rec2 : forall t, dq_bad (inPattern l) r' = true -> errs (qstring_loop f l2 ind ql qc true t) <> []).
+      { intros t Hb'. apply (IH r' f l2 ind ql qc true t); auto; cbn [length] in *; lia. }
+      unfold known_escape in Hb.
+      destruct (d =? c_n)%N; [apply Rec2; destruct (inPattern l); exact Hb|].
+      destruct (d =? c_t)%N; [apply Rec2; destruct (inPattern l); exact Hb|].
+      destruct (d =? cDQ)%N; [apply Rec2; destruct (inPattern l); exact Hb|].
+      destruct (d =? cBSL)%N; [apply Rec2; destruct (inPattern l); exact Hb|].
+      change (inPattern l2) with (inPattern l). destruct (inPattern l) eqn:Hp.
+      * apply Rec2. exact Hb.
+      * apply qstring_loop_keeps. apply ErrorfAt_errs. exact Hc.
+  - destruct (c =? cLF)%N; [apply Rec; exact Hb|].
+    destruct ((c =? cSP) || (c =? cTAB))%N; [destruct (negb over && _); apply Rec; exact Hb|apply Rec; exact Hb].
+Qed.
+
+Lemma failed_errs l l' : failed l l' -> errcnt l = O -> errs l' <> [].
+Proof. intros (_ & _ & H) Hc. apply H. exact Hc. Qed.
+
+Lemma NextToken_rej text : ~ In EOFR text -> lf_term text -> forall n s l fuel,
+  (length s <= n)%nat -> glex text l s -> errcnt l = O -> (2 * length s + 4 <= fuel)%nat ->
+  read_token text (inPattern l) s = TReject ->
+  forall r l', NextToken fuel l = (r, l') -> errs l' <> [].
+Proof.
+  intros NE LT. induction n as [|n IH]; intros s l fuel Hn G Hc0 Hf Hrej r0 lf Hnt.
+  all: pose proof (lexGround_sim text l s NE G) as GR.
+  all: destruct G as (Hst & Hit & L & Ha).
+  all: destruct fuel as [|f]; [lia|].
+  all: rewrite (read_token_skip text _ s (dropb s) (skip_dropb s)) in Hrej.
+  all: rewrite (NextToken_run f l Hit ltac:(rewrite Hst; discriminate)) in Hnt.
+  all: unfold run_state in Hnt; rewrite Hst in Hnt.
+  all: pose proof (dropb_length s) as Hdl.
+  all: destruct (dropb_suffix s) as (B & EB).
+  all: assert (Htxt : text = (rev (before (cu l)) ++ B) ++ dropb s)
+         by (destruct L as [Z _]; unfold zip in Z; rewrite <- Z, Ha, <- app_assoc, <- EB; reflexivity).
+  all: set (l1 := lexGround l) in *.
+  all: destruct (dropb s) as [|c r] eqn:Hd; [discriminate Hrej|].
+  1: destruct s; [discriminate|cbn in Hn; lia].
+  unfold ground_result in GR. unfold read_token in Hrej.
+  assert (Hc_nb : blank c = false).
+  { assert (Q : dropb (dropb s) = dropb s).
+    { clear. induction s as [|x s IHs]; [reflexivity|]. cbn [dropb]. destruct (is_blank x) eqn:E; [exact IHs|]. cbn [dropb]. rewrite E. reflexivity. }
+    rewrite Hd in Q. cbn [dropb] in Q. rewrite blank_is_blank. destruct (is_blank c); [|reflexivity].
+    exfalso. pose proof (dropb_length r) as Q2. rewrite Q in Q2. cbn [length] in Q2. lia. }
+  cbn [skip] in Hrej. rewrite Hc_nb in Hrej.
+  assert (Fail : failed l l1 -> errs lf <> []).
+  { intro Fl. apply (NextToken_keeps _ _ _ _ Hnt). apply (failed_errs _ _ Fl Hc0). }
+  destruct (punct c) eqn:Ep.
+  { assert (Hns : (c =? cSLASH)%N = false).
+    { unfold punct in Ep. destruct (N.eqb_spec c cSLASH) as [->|]; [discriminate Ep|reflexivity]. }
+    rewrite Hns, Ep in Hrej. discriminate. }
+  destruct (c =? cSQ)%N eqn:E2.
+  { apply N.eqb_eq in E2. subst c. change (cSQ =? cSLASH)%N with false in Hrej. cbv iota in Hrej.
+    rewrite Ep, N.eqb_refl in Hrej. destruct (squoted r) as [[u s']|]; [discriminate|]. apply Fail. exact GR. }
+  destruct (c =? cDQ)%N eqn:E3.
+  { apply N.eqb_eq in E3. subst c. change (cDQ =? cSLASH)%N with false in Hrej. cbv iota in Hrej.
+    rewrite Ep, E2, N.eqb_refl in Hrej.
+    destruct (dquoted (inPattern l) (column_of text (cDQ :: r)) r) as [u s'| |] eqn:Edq; try discriminate.
+    destruct f as [|f]; [lia|].
+    destruct GR as ((S1 & S2 & S3) & Hs1 & Hi1 & Z1 & X1 & A1 & _).
+    rewrite (NextToken_run f l1 Hi1 ltac:(rewrite Hs1; discriminate)) in Hnt. unfold run_state in Hnt. rewrite Hs1 in Hnt.
+    apply (NextToken_keeps _ _ _ _ Hnt). unfold lexQString.
+    apply (qstring_bad text NE (length r) r); auto.
+    - split; [exact Z1|left; exact X1].
+    - rewrite A1. lia.
+    - congruence.
+    - rewrite S3. eapply dquoted_reject_bad; exact Edq. }
+  destruct (c =? cSLASH)%N eqn:E4.
+  { apply N.eqb_eq in E4. subst c.
+    destruct r as [|d r'].
+    - rewrite Ep in Hrej. change (cSLASH =? cSQ)%N with false in Hrej. change (cSLASH =? cDQ)%N with false in Hrej. cbv iota in Hrej.
+      cbn [unquoted] in Hrej. destruct (ends_unquoted cSLASH); cbn in Hrej; discriminate.
+    - destruct (d =? cSLASH)%N eqn:E5.
+      { apply N.eqb_eq in E5. subst d. rewrite skip_line in Hrej.
+        destruct (index1 cLF r') as [x|] eqn:Hi; [|discriminate].
+        fold (read_token text (inPattern l) (skipn x r')) in Hrej.
+        destruct GR as (SE & Hs1 & Hi1 & L1 & A1).
+        assert (G1 : glex text l1 (skipn x r')) by (split; [exact Hs1|split; [exact Hi1|split; assumption]]).
+        assert (Hlen2 : (length (skipn x r') <= length r')%nat) by (rewrite skipn_length; lia).
+        cbn [length] in *. destruct SE as (S1 & S2 & S3).
+        apply (IH (skipn x r') l1 f ltac:(lia) G1 ltac:(congruence) ltac:(lia) ltac:(rewrite S3; exact Hrej) _ _ Hnt). }
+      destruct (d =? cSTAR)%N eqn:E6.
+      { rewrite skip_block in Hrej.
+        destruct (find2 cSTAR cSLASH r') as [[p q]|] eqn:Hfd; [|apply Fail; exact GR].
+        fold (read_token text (inPattern l) q) in Hrej.
+        destruct GR as (SE & Hs1 & Hi1 & L1 & A1).
+        assert (G1 : glex text l1 q) by (split; [exact Hs1|split; [exact Hi1|split; assumption]]).
+        pose proof (index2_find2 cSTAR cSLASH r') as F2. rewrite Hfd in F2. destruct F2 as [_ Er'].
+        assert (Hlen2 : (length q + 2 <= length r')%nat) by (rewrite Er', app_length; cbn [length]; lia).
+        cbn [length] in *. destruct SE as (S1 & S2 & S3).
+        apply (IH q l1 f ltac:(lia) G1 ltac:(congruence) ltac:(lia) ltac:(rewrite S3; exact Hrej) _ _ Hnt). }
+      rewrite Ep in Hrej. change (cSLASH =? cSQ)%N with false in Hrej. change (cSLASH =? cDQ)%N with false in Hrej. cbv iota in Hrej.
+      destruct (unquoted (cSLASH :: d :: r')) as [u s']. destruct (opener_in (tl u)); discriminate. }
+  rewrite Ep, E2, E3 in Hrej. destruct (unquoted (c :: r)) as [u s']. destruct (opener_in (tl u)); discriminate.
+Qed.
